@@ -52,53 +52,70 @@ Proof. destruct (store_append_cases st h) as [H|[H _]]; rewrite H; [|eauto]. des
 Lemma slh_now s h : s_now (set_local_head s h) = s_now s.
 Proof. unfold set_local_head. destruct (store_append _ _); [destruct (_ <=? _)|]; reflexivity. Qed.
 
-(** setLocalHead never lowers the local head, for ANY header *)
-Lemma slh_mono s h : L s <= L (set_local_head s h).
+(** the local head is the higher of the store head and the pending head *)
+Lemma L_max s : L s = N.max (hgt (s_store s)) (hgt (s_pend s)).
 Proof.
-  unfold L, local_head, set_local_head.
-  pose proof (store_append_mono (s_store s) h) as Hm.
-  destruct (store_append_some (s_store s) h) as [x Hx]. rewrite Hx in *. cbn in Hm.
-  destruct (N.leb_spec (h_height h) (h_height x)); cbn [s_pend s_store].
-  - destruct (s_pend s); cbn; lia.
-  - unfold pend_add. destruct (s_pend s) as [pd|]; cbn.
-    + destruct (N.leb_spec (h_height h) (h_height pd)); cbn; lia.
-    + lia.
+  unfold L, local_head. destruct (s_pend s) as [pd|], (s_store s) as [sh|]; cbn; try lia.
+  destruct (N.ltb_spec (h_height sh) (h_height pd)); cbn; lia.
 Qed.
 
-(** ... and the new local head is one of the old one / the given header, and it
-    is the given header when that one is above the old local head of a wf state *)
+Lemma local_head_wf s : wf s -> local_head s = match s_pend s with Some pd => Some pd | None => s_store s end.
+Proof.
+  unfold wf, local_head. destruct (s_pend s) as [pd|]; [|reflexivity].
+  destruct (s_store s) as [sh|]; [|reflexivity]. cbn. intros [_ H].
+  destruct (N.ltb_spec (h_height sh) (h_height pd)); [reflexivity|lia].
+Qed.
+
+Lemma pend_add_mono pd h : hgt pd <= hgt (pend_add pd h).
+Proof. unfold pend_add. destruct pd as [x|]; cbn; [|lia]. destruct (N.leb_spec (h_height h) (h_height x)); cbn; lia. Qed.
+
+Lemma slh_parts s h :
+  hgt (s_store s) <= hgt (s_store (set_local_head s h)) /\ hgt (s_pend s) <= hgt (s_pend (set_local_head s h)).
+Proof.
+  unfold set_local_head. pose proof (store_append_mono (s_store s) h) as Hm.
+  pose proof (pend_add_mono (s_pend s) h) as Hp.
+  destruct (store_append (s_store s) h) as [x|]; [destruct (_ <=? _)|]; cbn in *; lia.
+Qed.
+
+(** setLocalHead never lowers the local head, for ANY header *)
+Lemma slh_mono s h : L s <= L (set_local_head s h).
+Proof. rewrite !L_max. destruct (slh_parts s h). lia. Qed.
+
+(** ... and the new local head is the given header when that one is above the
+    old local head of a wf state *)
 Lemma slh_above s h : wf s -> L s < h_height h ->
   local_head (set_local_head s h) = Some h /\ wf (set_local_head s h).
 Proof.
-  unfold wf, L, local_head, set_local_head. intros Hwf Hlt.
-  destruct (store_append_cases (s_store s) h) as [He|[He Hc]]; rewrite He.
-  - destruct (s_store s) as [sh|] eqn:Hs; cbn in *.
-    + destruct (s_pend s) as [pd|]; cbn in *.
-      * destruct (N.leb_spec (h_height h) (h_height sh)); [lia|]. cbn.
-        destruct (N.leb_spec (h_height h) (h_height pd)); [lia|].
-        split; [reflexivity|]. split; [discriminate|lia].
-      * destruct (N.leb_spec (h_height h) (h_height sh)); [lia|]. cbn.
-        split; [reflexivity|]. split; [discriminate|lia].
-    + unfold store_append in He. discriminate.
-  - rewrite N.leb_refl. cbn.
-    destruct (s_pend s) as [pd|]; cbn in *; [|auto].
-    destruct Hwf as [Hne Hwf]. destruct Hc as [Hc|Hc]; [contradiction|lia].
+  intros Hwf Hlt.
+  assert (Hw : s_pend (set_local_head s h) = match s_pend (set_local_head s h) with Some _ => Some h | None => None end /\
+               (s_pend (set_local_head s h) = None -> s_store (set_local_head s h) = Some h) /\ wf (set_local_head s h)).
+  { rewrite L_max in Hlt. unfold wf in *. unfold set_local_head.
+    destruct (store_append_cases (s_store s) h) as [He|[He Hc]]; rewrite He.
+    - destruct (s_store s) as [sh|] eqn:Hs; [|unfold store_append in He; discriminate].
+      cbn in *. destruct (N.leb_spec (h_height h) (h_height sh)); [lia|]. cbn.
+      unfold pend_add. destruct (s_pend s) as [pd|]; cbn in *.
+      + destruct (N.leb_spec (h_height h) (h_height pd)); [lia|]. cbn.
+        split; [reflexivity|]. split; [discriminate|]. split; [discriminate|lia].
+      + split; [reflexivity|]. split; [discriminate|]. split; [discriminate|lia].
+    - rewrite N.leb_refl. cbn. destruct (s_pend s) as [pd|]; cbn in *.
+      + destruct Hwf as [Hne Hwf]. destruct Hc as [Hc|Hc]; [contradiction|lia].
+      + split; [reflexivity|]. split; [reflexivity|exact I]. }
+  destruct Hw as (H1 & H2 & H3). split; [|exact H3].
+  rewrite (local_head_wf _ H3). destruct (s_pend (set_local_head s h)); [exact H1|apply H2; reflexivity].
 Qed.
 
 Lemma slh_below s h : h_height h <= L s -> L (set_local_head s h) = L s.
 Proof.
   intros Hle. apply N.le_antisymm; [|apply slh_mono].
-  unfold L, local_head, set_local_head in *.
+  rewrite !L_max in *. unfold set_local_head.
   destruct (store_append_cases (s_store s) h) as [He|[He Hc]]; rewrite He.
-  - destruct (s_store s) as [sh|] eqn:Hs; cbn in *.
-    + destruct (N.leb_spec (h_height h) (h_height sh)); cbn.
-      * destruct (s_pend s); cbn; lia.
-      * unfold pend_add. destruct (s_pend s) as [pd|]; cbn in *; [|lia].
-        destruct (N.leb_spec (h_height h) (h_height pd)); cbn; lia.
+  - destruct (s_store s) as [sh|]; cbn in *.
+    + destruct (N.leb_spec (h_height h) (h_height sh)); cbn; [lia|].
+      unfold pend_add. destruct (s_pend s) as [pd|]; cbn in *; [|lia].
+      destruct (N.leb_spec (h_height h) (h_height pd)); cbn; lia.
     + unfold pend_add. destruct (s_pend s) as [pd|]; cbn in *; [|lia].
       destruct (N.leb_spec (h_height h) (h_height pd)); cbn; lia.
-  - rewrite N.leb_refl. cbn. destruct (s_pend s) as [pd|]; cbn in *; [lia|].
-    destruct Hc as [Hc|Hc]; [rewrite Hc in *; cbn in *|]; lia.
+  - rewrite N.leb_refl. cbn. lia.
 Qed.
 
 Lemma fold_slh_mono l s : L s <= L (fold_left set_local_head l s).
@@ -112,25 +129,25 @@ Proof. revert s. induction l as [|h l IH]; intros s; cbn; [reflexivity|]. rewrit
 
 Lemma tail_apply_mono s t : L s <= L (tail_apply s t).
 Proof.
-  destruct t as [th|]; cbn; [|lia]. unfold L, local_head; cbn.
-  destruct (s_pend s); cbn; [lia|apply store_append_mono].
+  destruct t as [th|]; cbn; [|lia]. rewrite !L_max. cbn.
+  pose proof (store_append_mono (s_store s) th). lia.
 Qed.
 
 Lemma tick_L s d : L (tick s d) = L s.
 Proof. reflexivity. Qed.
 
-Lemma sync_part_L s h : L (sync_part s h) = L s.
+Lemma sync_part_mono s h : L s <= L (sync_part s h).
 Proof.
-  unfold sync_part, L, local_head. destruct (s_pend s) as [pd|] eqn:Hp; [|rewrite ?Hp; reflexivity].
-  destruct (_ && _); cbn; rewrite ?Hp; reflexivity.
+  rewrite !L_max. unfold sync_part. destruct (s_pend s) as [pd|] eqn:Hp; [|rewrite Hp; lia].
+  destruct (N.ltb_spec (hgt (s_store s)) (h_height h)); cbn [andb]; [|rewrite Hp; lia].
+  destruct (_ <? _); cbn; rewrite ?Hp; cbn; lia.
 Qed.
 
-(** sync() never lowers the local head; it leaves it alone unless it drops a
-    pending head the store has already reached or passed *)
+(** sync() never lowers the local head *)
 Lemma sync_done_mono s : L s <= L (sync_done s).
 Proof.
-  unfold sync_done, L, local_head. destruct (s_pend s) as [pd|] eqn:Hp; [|rewrite ?Hp; lia].
-  destruct (N.ltb_spec (hgt (s_store s)) (h_height pd)); cbn; rewrite ?Hp; cbn; lia.
+  rewrite !L_max. unfold sync_done. destruct (s_pend s) as [pd|] eqn:Hp; [|rewrite Hp; lia].
+  destruct (N.ltb_spec (hgt (s_store s)) (h_height pd)); cbn; lia.
 Qed.
 
 Section withtv.
@@ -269,7 +286,7 @@ Proof.
   destruct e as [d|h b t|h| |i]; cbn.
   - apply N.le_refl.
   - apply gossip_mono.
-  - rewrite sync_part_L. lia.
+  - apply sync_part_mono.
   - apply sync_done_mono.
   - apply head_seq_bounds.
 Qed.
@@ -587,7 +604,7 @@ Proof.
   destruct e as [d|h b t|h| |i x]; cbn.
   - intros [= <- <-]. exists 0%nat. apply spec_global. apply N.le_refl.
   - intros [= <- <-]. exists 0%nat. apply spec_global. apply gossip_mono.
-  - intros [= <- <-]. exists 0%nat. apply spec_global. rewrite sync_part_L. lia.
+  - intros [= <- <-]. exists 0%nat. apply spec_global. apply sync_part_mono.
   - intros [= <- <-]. exists 0%nat. apply spec_global. apply sync_done_mono.
   - intros H. exists i. eapply tstep_spec; eassumption.
 Qed.
@@ -1464,7 +1481,7 @@ Fixpoint sane (s : sstate) (l : list sev) : Prop :=
 Lemma slh_again s h : wf s -> L s < h_height h ->
   set_local_head (set_local_head s h) h = set_local_head s h.
 Proof.
-  unfold wf, L, local_head, set_local_head. intros Hwf Hlt.
+  intros Hwf Hlt. rewrite L_max in Hlt. unfold wf, set_local_head in *.
   destruct (store_append_cases (s_store s) h) as [He|[He Hc]]; rewrite He.
   - destruct (s_store s) as [sh|] eqn:Hs; [|unfold store_append in He; discriminate].
     cbn in *. destruct (s_pend s) as [pd|]; cbn in *.
